@@ -98,22 +98,43 @@ Theorem C04_refused_while_locked : forall mode maxr j,
   run_job mode maxr true j = (mkOut JRefused (no_logs (j_parts j)), true).
 Proof. exact run_job_locked. Qed.
 
+Theorem C04_refused_while_locked_any : forall mode maxr j,
+  run_any mode maxr true j = (mkOut JRefused (no_logs (j_parts j)), true).
+Proof. exact any_refused_while_locked. Qed.
+
+(* ---- the lazily evaluated take / first / isEmpty (the property's parenthesis).  They return what they
+   return on the fault-free element stream, or an error reaches the caller; a generator task function is
+   never retried (the error is the one of a first attempt and no partition is attempted twice), an eager
+   one goes through the ordinary retry; nested operations are refused here too *)
+Theorem C04_lazy_actions : forall maxr j, 1 <= maxr ->
+  let o := fst (run_lazy_job maxr false j) in
+  (o_res o = lazy_plain_result j
+   \/ exists e i a, o_res o = JErr e i a /\ (if j_eager j then a = maxr else a = 1))
+  /\ (j_eager j = false -> Forall (fun l => (length l <= 1)%nat) (o_logs o))
+  /\ nested_all_refused (o_logs o).
+Proof. exact lazy_actions. Qed.
+
 (* ---- the context stays usable.  Whatever a job does (succeeds, fails, has refused nested operations),
    it leaves the lock released ... *)
 Theorem C04_lock_released : forall mode maxr j, snd (run_job mode maxr false j) = false.
 Proof. exact lock_released. Qed.
 
 (* ... so every job of a sequence behaves as on a fresh context ... *)
+Theorem C04_lock_released_any : forall mode maxr j, snd (run_any mode maxr false j) = false.
+Proof. exact any_lock_released. Qed.
+
+(* (run_any = run_job for the actions that evaluate whole partitions, the lazy take/first/isEmpty otherwise) *)
 Theorem C04_usable_after : forall mode maxr js,
-  run_jobs mode maxr false js = (map (fun j => fst (run_job mode maxr false j)) js, false).
+  run_jobs mode maxr false js = (map (fun j => fst (run_any mode maxr false j)) js, false).
 Proof. exact usable_after. Qed.
 
 Theorem C04_usable_after_history : forall mode maxr history j d,
-  nth (length history) (fst (run_jobs mode maxr false (history ++ [j]))) d = fst (run_job mode maxr false j).
+  nth (length history) (fst (run_jobs mode maxr false (history ++ [j]))) d = fst (run_any mode maxr false j).
 Proof. exact usable_after_history. Qed.
 
 (* ... and a follow-up job whose partitions all succeed within the budget returns the correct result *)
-Theorem C04_followup_correct : forall mode maxr history j, 1 <= maxr -> all_ok maxr (j_parts j) = true ->
+Theorem C04_followup_correct : forall mode maxr history j, 1 <= maxr ->
+  is_lazy (j_action j) = false -> all_ok maxr (j_parts j) = true ->
   o_res (nth (length history) (fst (run_jobs mode maxr false (history ++ [j]))) (mkOut JFuel [])) = JOk (plain_result j).
 Proof. exact followup_correct. Qed.
 
@@ -122,7 +143,7 @@ Definition ex_fail (e p : Z) : option fault := Some (mkFault e p).
 Definition ex_part1 := mkPart [1; 2; 3] [ex_fail 0 1; ex_fail 2 0] [].                 (* fails twice, then succeeds *)
 Definition ex_part2 := mkPart [4; 5] [ex_fail 1 2; ex_fail 1 2; ex_fail 2 1; None] []. (* fails three times *)
 Definition ex_part3 := mkPart [6] [] [mkNop NAction true; mkNop NCreate false].        (* nested: caught, then escaping *)
-Definition ex_job (ps : list part) := mkJob 0 1 2 ps.
+Definition ex_job (ps : list part) := mkJob 0 false 1 2 ps.
 
 Example ex_success :   (* max_retries 3: third attempt succeeds; collect of ((x+1)*2) *)
   run_job 0 3 false (ex_job [ex_part1]) =
@@ -145,6 +166,14 @@ Example ex_nested :
 Proof. vm_compute. split; reflexivity. Qed.
 
 Example ex_sequence :   (* a failing job, then a job with a recoverable fault, on the same context *)
-  map o_res (fst (run_jobs 0 2 false [ex_job [ex_part2]; ex_job [ex_part3]; mkJob 2 0 0 [mkPart [1; 2] [ex_fail 0 0] []]]))
+  map o_res (fst (run_jobs 0 2 false [ex_job [ex_part2]; ex_job [ex_part3]; mkJob 2 true 0 0 [mkPart [1; 2] [ex_fail 0 0] []]]))
   = [JErr 1 0 2; JErr E_LOCKED 0 2; JOk (VInt 3)].
 Proof. vm_compute. reflexivity. Qed.
+
+Example ex_lazy :   (* take(2): the generator of partition 0 fails after its first element; no retry.  take(1) is served
+                       before the failure.  An eager task function is retried and take(2) succeeds. *)
+  o_res (fst (run_any 0 3 false (mkJob 11 false 0 0 [ex_part1; ex_part2]))) = JErr 0 0 1
+  /\ o_res (fst (run_any 0 3 false (mkJob 10 false 0 0 [ex_part1; ex_part2]))) = JOk (vints [1])
+  /\ o_res (fst (run_any 0 3 false (mkJob 11 true 0 0 [ex_part1; ex_part2]))) = JOk (vints [1; 2])
+  /\ lazy_plain_result (mkJob 11 false 0 0 [ex_part1; ex_part2]) = JOk (vints [1; 2]).
+Proof. vm_compute. repeat split. Qed.
